@@ -12,13 +12,19 @@ Proved: delta coding, string-table resolution, packed arrays, the Info message f
 the FIELD-LIST round trip of plain nodes, ways and relations for every option vector under every string
 table that extends the writer's (`pbf_fields_roundtrip_*`), the header round trip with bounding boxes, the
 block-limit clause (`pbf_block_within_limits`: every emitted data blob has ≤ 8000 entities and ≤ 32 MiB, by
-induction over the object sequence) and the soundness of the size estimate for node/way/relation blocks.
-Not proved (see the comment at the end): dense nodes, the bytes-level composition into blocks and files.
+induction over the object sequence), the soundness of the size estimate for ALL blocks (dense included), the
+DenseNodes round trip (`pbf_fields_roundtrip_dense`: the `while (!ids.empty())` loop over all rows, every
+option vector), the bytes level of node / way / relation messages, and the two decoder passes over one
+PrimitiveBlock given what its items decode to (`pbf_block_roundtrip_partial`).
+Not proved (see the comment at the end): the writer invariant that links the items of a block to the object
+sequence (hence the unconditional block and file round trips).
 -/
 import Osmium.Lemmas.PbfObj
 import Osmium.Lemmas.PbfBytes
 import Osmium.Lemmas.PbfHeader
-import Osmium.Lemmas.PbfSize
+import Osmium.Lemmas.PbfSize2
+import Osmium.Lemmas.PbfDense3
+import Osmium.Lemmas.PbfBlock
 
 namespace Osmium.Pbf
 
@@ -161,6 +167,74 @@ example : decodeWay { strings := (encWay { locationsOnWays := true } {} { id := 
     = project { locationsOnWays := true } (.way { id := 9223372036854775807, uid := 2147483647 } [⟨1, ⟨1, 2⟩⟩, ⟨-9223372036854775807, Location.undefined⟩]) := by
   decide +kernel
 
+/-- bytes level for ways and relations -/
+theorem pbf_bytes_roundtrip_way (o : Opts) (t : Table) (m : Meta) (ns : List NodeRef) (T : List Bytes)
+    (hd : MetaInDomain m) (hid : IdOk m.id) (hn : WayInDomain ns)
+    (hT : Ext (encWay o t m ns).2.strings T) (hsz : (encWay o t m ns).2.size ≤ 2 ^ 31)
+    (hlen : (encodeFields (encWay o t m ns).1).length < 2 ^ 32) :
+    withFields (encodeFields (encWay o t m ns).1) (decodeWay { strings := T } {}) = project o (.way m ns) :=
+  way_bytes_roundtrip o t m ns T hd hid hn hT hsz hlen
+
+theorem pbf_bytes_roundtrip_relation (o : Opts) (t : Table) (m : Meta) (ms : List Member) (T : List Bytes)
+    (hd : MetaInDomain m) (hid : IdOk m.id) (hm : RelInDomain ms)
+    (hT : Ext (encRelation o t m ms).2.strings T) (hsz : (encRelation o t m ms).2.size ≤ 2 ^ 31)
+    (hlen : (encodeFields (encRelation o t m ms).1).length < 2 ^ 32) :
+    withFields (encodeFields (encRelation o t m ms).1) (decodeRelation { strings := T } {}) = project o (.relation m ms) :=
+  relation_bytes_roundtrip o t m ms T hd hid hm hT hsz hlen
+
+/-! ## DenseNodes -/
+
+/-- `DenseNodes::add_node` produces a row that represents the node for every reader table extending the
+    block's table after the add (at most 2^31 entries) … -/
+theorem pbf_dense_row_rep (o : Opts) (t : Table) (m : Meta) (l : Location) (T : List Bytes)
+    (hT : Ext (denseAdd o t m l).2.strings T) (hsz : (denseAdd o t m l).2.size ≤ 2 ^ 31) :
+    RowRep o T (denseAdd o t m l).1 m l :=
+  denseAdd_rep o t m l T hT hsz
+
+/-- … and `decode_dense_nodes` on `DenseNodes::serialize()` of rows that represent in-domain nodes returns
+    exactly the projected nodes, in order, for EVERY option vector: the loop `while (!ids.empty())` with its
+    seven delta decoders, the optional DenseInfo arrays, the visible flag deciding about the location, and
+    the 0-terminated keys_vals groups (`RowsRep` = row-wise `RowRep` + value domain). -/
+theorem pbf_fields_roundtrip_dense (o : Opts) (T : List Bytes) (r : DenseRow) (rs : List DenseRow)
+    (nodes : List (Meta × Location)) (hrep : RowsRep o T (r :: rs) nodes)
+    (hlen : (encodeFields (infoF o (r :: rs))).length < 2 ^ 32) :
+    decodeDense { strings := T } {} (encDense o (r :: rs)) = some (nodes.map fun n => projNode o n.1 n.2) :=
+  dense_fields_roundtrip o T r rs nodes hrep hlen
+
+/-- bytes level of the DenseNodes message (below 4 GiB, implied by the 32 MiB block guard) -/
+theorem pbf_bytes_roundtrip_dense (o : Opts) (T : List Bytes) (r : DenseRow) (rs : List DenseRow)
+    (nodes : List (Meta × Location)) (hrep : RowsRep o T (r :: rs) nodes)
+    (hlen : (encodeFields (encDense o (r :: rs))).length < 2 ^ 32) :
+    withFields (encodeFields (encDense o (r :: rs))) (decodeDense { strings := T } {}) =
+      some (nodes.map fun n => projNode o n.1 n.2) :=
+  dense_bytes_roundtrip o T r rs nodes hrep hlen
+
+/-- non-vacuity: two nodes (one deleted) through `add_node` → `serialize` → `decode_dense_nodes`, history file -/
+example :
+    let o : Opts := { history := true }
+    let a := denseAdd o {} { id := 5, version := 1, user := [0x75], tags := [⟨[0x6b], [0x76]⟩] } ⟨10, 20⟩
+    let b := denseAdd o a.2 { id := -9223372036854775807, version := 2, visible := false, uid := 7 } ⟨-30, 40⟩
+    decodeDense { strings := b.2.strings } {} (encDense o [a.1, b.1]) =
+      some [projNode o { id := 5, version := 1, user := [0x75], tags := [⟨[0x6b], [0x76]⟩] } ⟨10, 20⟩,
+            projNode o { id := -9223372036854775807, version := 2, visible := false, uid := 7 } ⟨-30, 40⟩] := by
+  decide +kernel
+
+/-! ## one PrimitiveBlock -/
+
+/-- `_partial` (of `pbf_block_roundtrip`): both passes of `PBFPrimitiveBlockDecoder` over the block message
+    "string table, one group of node / way / relation items" return the objects the items decode to
+    (`ItemsDec`: item i, parsed with the block's string table, gives object i — supplied per item by
+    `pbf_bytes_roundtrip_node/way/relation`).  Missing for the unconditional theorem: the invariant of
+    `WState.write`/`Block.addItem` that the items of the block under construction are the serialized messages
+    of the objects added so far (and their `ItemsDec` under the growing table, by `Ext` monotonicity), the
+    same composition for the dense group (`pbf_fields_roundtrip_dense` + `pbf_dense_row_rep` are the
+    ingredients), and on top of it the file level (framing: C02Pbf.pbf_framing_any_header_size). -/
+theorem pbf_block_roundtrip_partial (k : Nat) (hk : k = 1 ∨ k = 3 ∨ k = 4) (strs : List Bytes) (pls : List Bytes)
+    (obs : List Object) (hs : ∀ s ∈ strs, s.length ≤ 1024) (hitems : ItemsDec k { strings := strs } pls obs)
+    (hpl : ∀ pl ∈ pls, pl.length < 2 ^ 32) :
+    decodeBlock {} [fBytes 1 (encodeFields (strs.map (fBytes 1))), fBytes 2 (encodeFields (pls.map (fBytes k)))] = some obs :=
+  block_decode k hk strs pls obs hs hitems hpl
+
 /-! ## block limits (DESIGN.md F12, fixed in 9b8b2e0) -/
 
 /-- The clause of the property: every data blob of a file the Writer produced without reporting an error
@@ -177,19 +251,19 @@ theorem pbf_block_count_le (o : Opts) (objs : List Object) (b : Block)
     (h : (objs.foldl (WState.write o) {}).cur = some b) : b.count ≤ maxEntitiesPerBlock :=
   (foldl_write_inv o objs {} (init_inv o)).1 b h
 
-/-- `_partial` (node / way / relation blocks; dense blocks missing): since fix 9b8b2e0 `size()` — which
-    `can_add` compares with 95 % of 32 MiB — is an upper bound of the serialized block up to 24 bytes of
-    framing, for strings below 2 MiB.  With the old entry-counting estimate this was false (2000 strings of
-    1024 bytes: `size()` = 2001, > 2 MB serialized — the former theorem `not_pbf_size_estimate_sound`).
-    Missing for dense blocks: the per-array varint length bounds (ids ≤ 10, int32-range deltas ≤ 5 bytes …)
-    against `denseSize`; the model's `denseSize`/`Block.size` is tied to the real `size()` byte-exactly by
-    the `est` correspondence stream instead. -/
-theorem pbf_size_estimate_sound_partial (o : Opts) (b : Block) (hk : (b.kind == 2) = false) (hc : b.Consistent)
-    (hs : ∀ s ∈ b.table.added, s.length < 2 ^ 21) : (b.message o).length ≤ b.size o + 24 :=
-  size_estimate_plain o b hk hc hs
+/-- Since fix 9b8b2e0 `size()` — which `can_add` compares with 95 % of 32 MiB — is an upper bound of the
+    serialized block up to 180 bytes of field headers, for EVERY block kind (dense included), for strings below
+    2 MiB and rows inside the value domain (version < 2^31, uint32 timestamps/changesets, int32 coordinates,
+    string ids < 2^31).  With the old entry-counting estimate this was false (2000 strings of 1024 bytes:
+    `size()` = 2001, > 2 MB serialized).  The model's `Block.size` is tied to the real `size()` byte-exactly by
+    the `est` correspondence stream. -/
+theorem pbf_size_estimate_sound (o : Opts) (b : Block) (hc : b.Consistent)
+    (hs : ∀ s ∈ b.table.added, s.length < 2 ^ 21) (hd : ∀ r ∈ b.rows, RowDom r) :
+    (b.message o).length ≤ b.size o + 180 :=
+  size_estimate_all o b hc hs hd
 
 example : (({ kind := 3, table := { added := [[1, 2, 3]] } } : Block).message {}).length ≤
-    ({ kind := 3, table := { added := [[1, 2, 3]] } } : Block).size {} + 24 := by decide
+    ({ kind := 3, table := { added := [[1, 2, 3]] } } : Block).size {} + 180 := by decide
 
 /-! ## header -/
 
@@ -233,15 +307,11 @@ example : (encHeader {} { generator := [0x67], boxes := [(⟨-1301, -5⟩, ⟨7,
 NOT proved in Lean (covered by the correspondence of tools/props/c01_pbf.py: byte-exact writer model incl. the
 block accounting stream `est`, model decoder = real Reader on every produced file, real write → real read =
 project computed in Python):
-  pbf_fields_roundtrip for DENSE nodes: needs the `denseLoop` induction (cursor lists in lock step, delta state
-      = running value, `denseTags` over the flattened 0-terminated groups); ingredients available:
-      delta_roundtrip*, packed_roundtrip, stringtable_resolve_all, the Info projections;
-  bytes level of one way / relation (`withFields (encodeFields fs)`; done for nodes: pbf_bytes_roundtrip_node):
-      needs `Field.WF` of every field of encWay/encRelation exactly as in Lemmas/PbfBytes.lean
-      (tags < 16, varint values < 2^64, payload < 2^32 from the 32 MiB guard), then `Wire.readFields_encodeFields`;
-  pbf_block_roundtrip, pbf_file_roundtrip: need the above plus the `WState.write` invariant "finished blobs ++
-      current block decode to the projected prefix" (the limit invariant `LimitInv` of Lemmas/PbfWriter.lean
-      is the skeleton) and the framing step (C02Pbf.pbf_framing_any_header_size).
+  pbf_block_roundtrip / pbf_file_roundtrip without the `ItemsDec` / `RowsRep` hypotheses: need the invariant of
+      `WState.write` "finished blobs ++ current block decode to the projected prefix" (the limit invariant
+      `LimitInv` of Lemmas/PbfWriter.lean is the skeleton; per-item facts: pbf_bytes_roundtrip_*,
+      pbf_dense_row_rep + RowRep.mono; per block: pbf_block_roundtrip_partial, pbf_fields_roundtrip_dense) and
+      the framing step (C02Pbf.pbf_framing_any_header_size).
 -/
 
 end Osmium.Pbf
